@@ -21,11 +21,11 @@ import (
 
 func init() {
 	Register(&Property{
-		ID:   "C14",
-		Run:  runC14,
-		Rule: "runs = 3-10 archive requests, each parked at every gap between two files while a seeded write burst (new device + first report / registration + first device + report / rotation / reports) is injected, plus request bursts at one simulated instant against the rate limit; every 200 reply is unzipped and checked for record-aligned prefixes, dependency closure, signatures, absence of the private key, and the rate bound; non-trivial = at least one burst was injected inside an archive; distinct = distinct decision signatures",
-		Real: []string{"ArchiveHandler, addFile, addPubKeyFile, rate limiter", "all write paths used by the bursts", "rotation loop"},
-		Stub: []string{"socket listeners"},
+		ID:             "C14",
+		Run:            runC14,
+		Rule:           "runs = 3-10 archive requests, each parked at every gap between two files while a seeded write burst (new device + first report / registration + first device + report / rotation / reports) is injected, plus request bursts at one simulated instant against the rate limit; every 200 reply is unzipped and checked for record-aligned prefixes, dependency closure, signatures, absence of the private key, and the rate bound; non-trivial = at least one burst was injected inside an archive; distinct = distinct decision signatures",
+		Real:           []string{"ArchiveHandler, addFile, addPubKeyFile, rate limiter", "all write paths used by the bursts", "rotation loop"},
+		Stub:           []string{"socket listeners"},
 		Assumptions:    []string{"one write call is atomic with respect to a concurrent read of the same file (README, File Writing and Archiving): bursts are injected between files, not inside a write"},
 		RequiredProbes: []string{"c14.burst.new-device", "c14.burst.registration", "c14.burst.rotation", "c14.burst.reports", "c14.rate-limited", "c14.archive-ok"},
 	})
